@@ -100,7 +100,7 @@ def check(ctx):
         clears = [b for b, v in fp.dirty_stores(fn) if v is False]
         err = fn.error_blocks()
         for b in clears:
-            ok = len(call_blocks) >= len(fields) >= 3 and all(fn.dominates(cb, b) for cb in call_blocks) and b not in err
+            ok = len(call_blocks) >= len(fields) >= 3 and all(cb != b and fn.dominates(cb, b) for cb in call_blocks) and b not in err
             ctx.check(ok, "clear-after-all", m,
                       "%s marks the map clean before every file has been flushed successfully; after an error the next "
                       "flush skips files that still hold unwritten data" % m, where=where(fn, b))
